@@ -23,7 +23,7 @@ type diffProp struct {
 func (p *diffProp) ID() string     { return p.id }
 func (p *diffProp) BatchSize() int { return 400 }
 func (p *diffProp) Rule() string {
-	return "case = (dataset, query, window, lookback, optimizer set, GOMAXPROCS) derived from splitmix64(seed, property, index); executed on the engine (fallback disabled) and on the pinned Prometheus engine over the same MonStore; non-trivial iff natively supported and the reference result is non-empty or an error; distinct by content hash"
+	return "case = (dataset, query, window, lookback, query options, optimizer set, GOMAXPROCS) derived from splitmix64(seed, property, index); executed on the engine (fallback disabled; for 6% of the C06 cases through the distributed engine over 2 partitions) and on the pinned Prometheus engine over the same MonStore; non-trivial iff natively supported and the reference result is non-empty or an error; distinct by content hash"
 }
 func (p *diffProp) NumCases(tier string) int {
 	if tier == "thorough" {
